@@ -1,10 +1,71 @@
 import PewDriver.Util
+import PewModel.Calib
 open Lean
 namespace PewDriver.C06
-open PewDriver
+open PewDriver Pew.Calib
 
-def handle (op : String) (_req : Json) : R Json := do
+def jV : V → Json := jOpt jRat
+
+def parseRow (j : Json) : R Row := do
+  match ← asList (asOpt asRat) j with
+  | [x, y, cw] => pure { x := x, y := y, cw := cw }
+  | _ => throw "row must be [x, y, cw]"
+
+/-- Python `None` ↦ null, NaN ↦ "nan" -/
+def jRsq : Option V → Json
+  | none => .null
+  | some none => jStr "nan"
+  | some (some q) => jRat q
+
+def jFit (f : Fit) : Json :=
+  jObj [("gradient", jRat f.gradient), ("intercept", jRat f.intercept), ("rsq", jRsq f.rsq),
+        ("err2", jOpt jRat f.err2)]
+
+def handle (op : String) (req : Json) : R Json := do
   match op with
+  | "c06.fit" =>
+    let name ← getStr req "weighting"
+    let hasCustom ← getBool req "custom"
+    let rows ← getList parseRow req "rows"
+    let wt ← match parseBuiltin name with
+      | some b => pure (Weighting.builtin b)
+      | none => if hasCustom then pure Weighting.custom else throw s!"unsupported weighting {name}"
+    if wt == .custom && (usableRows rows).any (fun r => r.cw.isNone) then
+      throw "NaN custom weight on a usable row (outside the property)"
+    let fit := updateLinreg wt rows
+    let l := fitPts wt rows
+    let fitted := !rows.isEmpty && (usableRows rows).length ≥ 2
+    -- specification: textbook centred form and squared weighted correlation
+    let spec : Json :=
+      if fitted then
+        jObj [("gradient", jRat (specGradient l)), ("intercept", jRat (specIntercept l)),
+              ("rsq", jRat (specRsq l))]
+      else jFit identityFit
+    pure (jObj [
+      ("weights", jList jV (weights wt rows)),
+      ("fit_weights", jList jRat (l.map (·.w))),
+      ("usable", jNat (usableRows rows).length),
+      ("fitted", jBool fitted),
+      ("model", jFit fit),
+      ("spec", spec),
+      ("hyp", jBool (fitted && fitHyp l)),
+      -- conditioning figures (exact): D/(Sw·Swxx), Dy/(Sw·Swyy), Swxx/Sw
+      ("rho", jRat (D l / (Sw l * Swxx l))),
+      ("rho_y", jRat (Dy l / (Sw l * Swyy l))),
+      ("xr2", jRat (Swxx l / Sw l)),
+      -- 1 − 1/n_eff: relative size of np.cov's normalisation factor Σw − Σw²/Σw
+      ("cov_margin", jRat ((Sw l ^ 2 - Sww l) / Sw l ^ 2)),
+      ("dy_pos", jBool (decide (0 < Dy l)))])
+  | "c06.calibrate" =>
+    let g ← getRat req "gradient"
+    let c ← getRat req "intercept"
+    let resp ← getList (asOpt asRat) req "responses"
+    let conc ← getList (asOpt asRat) req "concentrations"
+    -- model: the code's arithmetic on the responses actually passed;
+    -- spec: calibrate on the exact points of the line (= the concentrations, `calibrate_inverts`)
+    pure (jObj [
+      ("model", jList jV (resp.map (calibrate g c))),
+      ("spec", jList jV (conc.map (fun x => calibrate g c (x.map (fun q => g * q + c)))))])
   | _ => throw s!"unknown op {op}"
 
 end PewDriver.C06
